@@ -46,6 +46,7 @@ let external_id = match nervusdb_storage::verif::now_nanos() {
     Some(t) => ExternalId::from(created_count as u64 + t as u64),
     None => external_id,
 };
+            let external_id = crate::executor::first_free_external_id(&*txn, external_id);
             let label_id = if let Some(label) = node_pat.labels.first() {
                 txn.get_or_create_label_id(label)?
             } else {
